@@ -4,9 +4,13 @@
    maven_pom_done.rs (get_merged_pom, merge_parent, make_dependency_management,
    declared_dependencies, make_dependencies) and lib.rs (DependencyScope, FoundDependency,
    get_dependencies_tree, clean_up_dependencies, get_maven_dependencies).
-   Definitions only.  The scope enum, its names and the scope table come from ScopeGen.v, which
-   the translator regenerates from lib.rs on every check. *)
-From FB Require Export C19.Tree C19.ScopeGen Base.Run.
+   Definitions only.  The scope enum, its names and the scope table come from ScopeGen.v; the
+   coordinate record, the collision id (its fields, how it is built and compared),
+   matches_besides_version and the arms of the Types tables come from CoordGen.v; the translators
+   regenerate both from lib.rs / coord.rs on every check.  The printers below are hand-written;
+   CoordFmtGen.v holds what the translator makes of the format strings, TheorySource.v the proofs
+   that the two agree. *)
+From FB Require Export C19.Tree C19.ScopeGen C19.CoordGen Base.Run.
 
 (* ---------- literals ---------- *)
 Definition s_jar : str := [106;97;114].                                 (* jar *)
@@ -85,8 +89,7 @@ Fixpoint lookup_str {B} (k : str) (l : list (str * B)) : option B :=
 Definition parse_scope (s : str) : res scope :=
   match lookup_str s scope_names with Some x => Ok x | None => Err end.
 
-(* ---------- MavenCoord ---------- *)
-Record coord := mkCoord { c_group : str; c_artifact : str; c_version : str; c_classifier : option str; c_type : str }.
+(* ---------- MavenCoord (Record coord := mkCoord { c_group; c_artifact; c_version; c_classifier; c_type } from CoordGen.v) ---------- *)
 
 (* Display: "{group}:{artifact}:{type_}{classifier_colon}{classifier}:{version}" *)
 Definition print_coord (c : coord) : str :=
@@ -102,16 +105,6 @@ Definition parse_coord (s : str) : res coord :=
   | [g; a; t; k; v] => Ok (mkCoord g a v (Some k) t)
   | _ => Err
   end.
-
-Definition cid : Type := str * str * option str * str.
-Definition dependency_collision_id (c : coord) : cid := (c_group c, c_artifact c, c_classifier c, c_type c).
-Definition cid_eqb (a b : cid) : bool :=
-  match a, b with
-  | (g1, a1, k1, t1), (g2, a2, k2, t2) => str_eqb g1 g2 && str_eqb a1 a2 && opt_eqb str_eqb k1 k2 && str_eqb t1 t2
-  end.
-Definition matches_besides_version (c : coord) (group artifact : str) (classifier : option str) (type_ : str) : bool :=
-  str_eqb (c_group c) group && str_eqb (c_artifact c) artifact
-  && opt_eqb str_eqb (c_classifier c) classifier && str_eqb (c_type c) type_.
 
 (* to_snapshot_version: <anything>-<8 digits>.<6 digits>-<digits> becomes <anything>-SNAPSHOT; step by step as the Rust code does it *)
 Definition to_snapshot_version (version : str) : str :=
@@ -143,15 +136,34 @@ Definition make_pom_url (r : resolver) (c : coord) : str :=
   ++ replace_char cDOT cSLASH (c_group c) ++ [cSLASH] ++ c_artifact c ++ [cSLASH]
   ++ to_snapshot_version (c_version c) ++ [cSLASH] ++ c_artifact c ++ [cMINUS] ++ c_version c ++ s_dot_pom.
 
-(* ---------- Types (artifact handler table) ---------- *)
+(* ---------- Types (artifact handler tables; the arms are in CoordGen.v) ---------- *)
+(* a Rust `match s { "a" | "b" => r1, "c" => r2, .. }` over string literals: the first arm one of whose patterns is s *)
+Fixpoint eval_arms {B} (arms : list (list str * B)) (s : str) : option B :=
+  match arms with
+  | [] => None
+  | (pats, r) :: arms' => if existsb (str_eqb s) pats then Some r else eval_arms arms' s
+  end.
+(* Option<&str> tables: the catch-all arm gives None *)
 Definition type_to_classifier (t : str) : option str :=
-  if str_eqb t s_test_jar then Some s_tests
-  else if str_eqb t s_ejb_client then Some s_client
-  else if str_eqb t s_java_source then Some s_sources
-  else if str_eqb t s_javadoc then Some s_javadoc
-  else None.
-(* every reachable arm of Types::packaging_to_type returns its argument *)
-Definition packaging_to_type (packaging : str) : str := packaging.
+  match eval_arms type_to_classifier_arms t with Some r => r | None => None end.
+(* &str tables: an arm gives a literal or the matched string itself, the catch-all arm its argument *)
+Definition eval_str_arms (arms : list (list str * option str)) (s : str) : str :=
+  match eval_arms arms s with Some (Some lit) => lit | _ => s end.
+Definition type_to_extension (t : str) : str := eval_str_arms type_to_extension_arms t.
+Definition packaging_to_type (packaging : str) : str := eval_str_arms packaging_to_type_arms packaging.
+Arguments packaging_to_type : simpl never.
+Arguments type_to_classifier : simpl never.
+Arguments type_to_extension : simpl never.
+
+(* "{maven}{maven_slash}{group}/{artifact}/{base_version}/{artifact}-{version}{classifier_minus}{classifier}.{extension}" *)
+Definition make_url (r : resolver) (c : coord) : str :=
+  r_maven r ++ (if ends_with_char cSLASH (r_maven r) then [] else [cSLASH])
+  ++ replace_char cDOT cSLASH (c_group c) ++ [cSLASH] ++ c_artifact c ++ [cSLASH]
+  ++ to_snapshot_version (c_version c) ++ [cSLASH] ++ c_artifact c ++ [cMINUS] ++ c_version c
+  ++ (match c_classifier c with Some k => cMINUS :: k | None => [] end) ++ [cDOT] ++ type_to_extension (c_type c).
+
+(* MavenCoord::from_group_artifact_version *)
+Definition from_group_artifact_version (g a v : str) : coord := mkCoord g a v None s_jar.
 
 (* ---------- the POM as deserialised (maven_pom.rs) ---------- *)
 Inductive mscope := MScope (s : scope) | MImport.
